@@ -284,12 +284,15 @@ func ruleTokenize(r *Run, rule string) {
 				}
 			}
 			if n == "strings.ToLower" {
-				hasLower = true
+				// lower-casing is applied to the NFKC-normalised text (NFKC can introduce upper-case letters: ™ → TM)
+				if len(c.Common().Args) > 0 && strings.Contains(NewCanon(w).S(c.Common().Args[0]), "norm.Form).String(") {
+					hasLower = true
+				}
 			}
 		}
 	})
-	r.Check(hasNFKC && hasLower, rule, "normalize:nfkc-lower", w.Pos(norm.Pos())+" "+w.Name(norm), "normalize applies NFKC and lower-casing",
-		fmt.Sprintf("normalize: NFKC=%v lower=%v", hasNFKC, hasLower))
+	r.Check(hasNFKC && hasLower, rule, "normalize:nfkc-lower", w.Pos(norm.Pos())+" "+w.Name(norm), "normalize = lower(NFKC(text)), in this order",
+		fmt.Sprintf("normalize is not lower(NFKC(text)): NFKC=%v, lower-casing applied to the NFKC result=%v", hasNFKC, hasLower))
 	usesUAX := false
 	allInstrs(tok, func(in ssa.Instruction) {
 		if c, ok := in.(ssa.CallInstruction); ok && strings.Contains(calleeName(c.Common()), "uax29") {
